@@ -1015,6 +1015,10 @@ def absorb(chk: core.Check, res: dict[str, Any]) -> None:
 
 
 def search(chk: core.Check) -> None:
+    from verif.props import c15_nsga
+    c15_nsga.search(chk)
+    if chk.violations:
+        return
     r = random.Random(chk.seed * 17 + 3)
     drv = core.Driver("suggest")
     n = 0
@@ -1045,10 +1049,13 @@ def main(chk: core.Check) -> int:
 
     chk.rule = RULE
     H11.translate(chk)  # Props/C10 depends on the generated DistInt definitions through Model/Dist
+    from verif.props import c15_nsga
+    c15_nsga.translate(chk)  # T-nsga2: content keys of the NSGA-II functions mirrored by Model/Nsga2.lean
     if not getattr(chk, "no_prove", False):
-        chk.prove()
+        chk.prove(["OptunaVerif.Props.C10", "OptunaVerif.Props.C10Nsga"])
     try:
         core.ensure_driver()
+        c15_nsga.correspond(chk, chk.tier)  # NSGA-II crossover / mutation pipeline (+ whole-sampler replay)
         quick = chk.tier == "quick"
         cases = gen_cases(chk.rng, quick)
         for tb in H11.GEN_CRASHES:
@@ -1079,6 +1086,10 @@ def main(chk: core.Check) -> int:
 
 def replay(chk: core.Check, path: str) -> int:
     w = json.load(open(path))
+    from verif.props import c15_nsga
+    rc = c15_nsga.replay(chk, w)
+    if rc is not None:
+        return rc
     case = w["witness"]["case"] if "witness" in w else w["no_longer_checks"][0]["detail"]["case"]
     core.ensure_driver()
     drv = core.Driver("suggest")
